@@ -3,7 +3,7 @@
 From Coq Require Import List ZArith NArith Bool.
 From GoProbe.Base Require Import CorrLib.
 From GoProbe.C03 Require Import Model.
-From GoProbe.C06 Require Import Model ProofsA ProofsB ProofsC.
+From GoProbe.C06 Require Import Model ProofsA ProofsB ProofsC ProofsD.
 Import ListNotations.
 Open Scope N_scope.
 
@@ -44,6 +44,29 @@ Theorem c06_accounting : forall (dec : N -> bytes -> N -> option bytes) q fs tf 
                   N.of_nat (length (qr_days r)); sumN (map dr_dircorrupt (qr_days r))].
 Proof. exact accounting. Qed.
 Print Assumptions c06_accounting.
+
+(* ---- c06_seek_elision_sound: the reader keeps, per column file, the position of the file and `lastSeekPos` and only
+   seeks when a block does not start there.  Under validateBlock (a read consumes exactly Len bytes or fails before /
+   at the block start) this state never shows: a day evaluated through the reader states decides every block exactly
+   as if each block were read at its own offset.  `no_wrap`: the uint64 running sums of the stored lengths do not wrap
+   (a wrap needs more than 2^32 blocks in one day). *)
+Theorem c06_seek_elision_sound : forall (dec : N -> bytes -> N -> option bytes) q w dts d m, no_wrap m ->
+  eval_blocks_st dec init_states q w dts d m 0 (m_blocks m) = eval_blocks dec q w dts d m 0 (m_blocks m).
+Proof. exact seek_elision_sound. Qed.
+Print Assumptions c06_seek_elision_sound.
+
+(* ---- c06_block_containment: two states of a day that differ only in block b (descriptors, entry counts, timestamp,
+   stored bytes of that block in any column; same offsets for the other blocks): every other block of the day gets
+   exactly the same decision - the same rows, or skipped, or out of range. *)
+Theorem c06_block_containment : forall (dec : N -> bytes -> N -> option bytes) q w dts d m d' m' b xs xs',
+  no_wrap m -> no_wrap m' -> length (m_blocks m) = length (m_blocks m') ->
+  (forall j, j <> b -> nth_error (m_blocks m) j = nth_error (m_blocks m') j /\
+                       forall c, block_view d m j c = block_view d' m' j c) ->
+  eval_blocks_st dec init_states q w dts d m 0 (m_blocks m) = Ok xs ->
+  eval_blocks_st dec init_states q w dts d' m' 0 (m_blocks m') = Ok xs' ->
+  forall j, j <> b -> nth_error xs j = nth_error xs' j.
+Proof. exact block_containment. Qed.
+Print Assumptions c06_block_containment.
 
 (* ------------------------------------------------------------------ non-vacuity *)
 
@@ -100,3 +123,41 @@ Proof. vm_compute. repeat split; try reflexivity. discriminate. Qed.
 (* the accounting theorem's hypothesis holds with a skipped block *)
 Example c06_accounting_nonvacuous : exists r, ex_run ex_bad = Ok r /\ nth 1 (qr_stats r) 0 = 1.
 Proof. vm_compute. eexists; split; reflexivity. Qed.
+
+(* a day with two blocks; in the damaged state RawLen of the first block of the sip column is 2 instead of 4 (the
+   seeded defect's trigger): the hypotheses of c06_block_containment hold for b = 0 and the second block is Used *)
+Definition ex_meta2 (raw0 : N) : meta :=
+  {| m_version := 1;
+     m_cols := {| col_cur := 8; col_blocks := [{| cb_len := 4; cb_raw := raw0; cb_enc := 1 |}; ex_blk 4] |}
+               :: map (fun n => {| col_cur := 2 * n; col_blocks := [ex_blk n; ex_blk n] |}) [4; 1; 2; 2; 2; 2; 2];
+     m_blocks := [{| bi_ts := 1700006700; bi_traffic := {| t_v4 := 1; t_v6 := 0; t_drops := 0 |} |};
+                  {| bi_ts := 1700007000; bi_traffic := {| t_v4 := 1; t_v6 := 0; t_drops := 0 |} |}];
+     m_traffic := {| t_v4 := 2; t_v6 := 0; t_drops := 0 |};
+     m_counts := {| c_br := 14; c_bs := 16; c_pr := 2; c_ps := 4 |} |}.
+Definition ex_day2 : day :=
+  {| d_name := fmt_int 1700006400; d_meta := None;
+     d_cols := [Some [10; 0; 0; 1; 10; 0; 0; 3]; Some [10; 0; 0; 2; 10; 0; 0; 4]; Some [6; 17]; Some [1; 187; 0; 53];
+                Some [1; 7; 1; 7]; Some [1; 8; 1; 8]; Some [1; 1; 1; 1]; Some [1; 2; 1; 2]] |}.
+Definition ex_eval (raw0 : N) :=
+  eval_blocks_st ex_dec init_states ex_q (1700000000%Z, 1700200000%Z) 1700006400 ex_day2 (ex_meta2 raw0) 0 (m_blocks (ex_meta2 raw0)).
+
+Lemma ex_no_wrap : forall raw0, no_wrap (ex_meta2 raw0).
+Proof. intros raw0. unfold no_wrap, ex_meta2; cbn. repeat constructor; cbn; try reflexivity. Qed.
+
+Example c06_block_containment_nonvacuous :
+  no_wrap (ex_meta2 4) /\ no_wrap (ex_meta2 2)
+  /\ (forall j, j <> 0%nat -> nth_error (m_blocks (ex_meta2 4)) j = nth_error (m_blocks (ex_meta2 2)) j /\
+                              forall c, block_view ex_day2 (ex_meta2 4) j c = block_view ex_day2 (ex_meta2 2) j c)
+  /\ (exists xs xs', ex_eval 4 = Ok xs /\ ex_eval 2 = Ok xs'
+        /\ map is_skipped xs = [false; false] /\ map is_skipped xs' = [true; false]
+        /\ map (fun x => length (decision_rows x)) xs' = [0%nat; 1%nat]).
+Proof.
+  split; [apply ex_no_wrap|]. split; [apply ex_no_wrap|]. split.
+  - intros j Hj. destruct j as [|j]; [contradiction Hj; reflexivity|]. split; [reflexivity|].
+    intros c. do 8 (destruct c as [|c]; [destruct j; reflexivity|]). destruct j; reflexivity.
+  - vm_compute. do 2 eexists. repeat split; reflexivity.
+Qed.
+
+Example c06_seek_elision_sound_nonvacuous :
+  no_wrap (ex_meta2 4) /\ exists xs, ex_eval 4 = Ok xs /\ map (fun x => length (decision_rows x)) xs = [1%nat; 1%nat].
+Proof. split; [apply ex_no_wrap|]. vm_compute. eexists; split; reflexivity. Qed.
